@@ -27,6 +27,25 @@ func init() {
 
 func c03Gen(r *rand.Rand, tier string, idx int) []string {
 	var ops []string
+	if idx%8 == 5 {
+		// the real entry points, capacities that are no multiple of the page size, classes that leave little unused
+		k := 1 + r.Intn(3)
+		left := 100
+		var ps []string
+		for i := 0; i < k; i++ {
+			pc := left
+			if i < k-1 {
+				pc = 1 + r.Intn(left-(k-1-i))
+			}
+			left -= pc
+			ps = append(ps, fmt.Sprintf("%d:%d", []int{44, 64, 256, 1000, 4076, 4096, 8192, 32768}[r.Intn(8)]+i, pc))
+		}
+		capacity := (1 << 20) + r.Intn(2<<20)
+		if r.Intn(4) == 0 {
+			capacity = capacity / 4096 * 4096
+		}
+		return []string{fmt.Sprintf("bmgr %s %d %s", []string{"file", "memfd"}[r.Intn(2)], capacity, strings.Join(ps, " "))}
+	}
 	kind := r.Intn(10)
 	memLen := 0
 	switch {
@@ -181,8 +200,130 @@ func (c *c03Run) specCreate(bm *bufferManager, memLen int) {
 	_ = hdrs
 }
 
+// bmgr <file|memfd> <cap> <size:percent>...: the buffer memory through the REAL entry points: the creator
+// (getGlobalBufferManager / getGlobalBufferManagerWithMemFd) and a peer that maps the same shared object (the file by
+// name, the memfd by a duplicate of the descriptor) must derive the same layout, inside the shared object
+func (c *c03Run) bmgr(f []string) (line string) {
+	defer func() {
+		if r := recover(); r != nil {
+			c.setFail("bmgr-panic", fmt.Sprintf("%s: panic: %v", strings.Join(f, " "), r))
+			line = "panic"
+		}
+	}()
+	capacity := uint32(vAtoi(f[2]))
+	pairs := c03Pairs(f[3:])
+	cfg := DefaultConfig()
+	cfg.ShareMemoryBufferCap = capacity
+	cfg.BufferSliceSizes = c03Pairs(f[3:])
+	if capacity > 64<<20 || VerifyConfig(cfg) != nil {
+		return "bad-op"
+	}
+	path := fmt.Sprintf("/dev/shm/verif_c03_%d_%d_buffer", os.Getpid(), atomic.AddUint64(&c03Seq, 1))
+	var bm *bufferManager
+	var err error
+	if f[1] == "file" {
+		os.Remove(path)
+		bm, err = getGlobalBufferManager(path, capacity, true, pairs)
+	} else {
+		bm, err = getGlobalBufferManagerWithMemFd(path, 0, capacity, true, pairs)
+	}
+	if err != nil {
+		// laying out may fail with an error (a class that gets no room): allowed
+		c.tags["bmgr-create-err"] = true
+		os.Remove(path)
+		return "err"
+	}
+	defer addGlobalBufferManagerRefCount(path, -1)
+	c.tags["bmgr-"+f[1]] = true
+	if capacity%4096 != 0 {
+		c.tags["bmgr-capacity-not-page-multiple"] = true
+	}
+	// the shared object: what a peer process gets to see
+	var objSize int64
+	var peerMem []byte
+	if f[1] == "file" {
+		fl, err := os.OpenFile(path, os.O_RDWR, 0)
+		if err != nil {
+			c.setFail("bmgr", "the creator's file cannot be opened: "+err.Error())
+			return "err"
+		}
+		defer fl.Close()
+		fi, _ := fl.Stat()
+		objSize = fi.Size()
+		peerMem, err = syscall.Mmap(int(fl.Fd()), 0, int(objSize), syscall.PROT_READ|syscall.PROT_WRITE, syscall.MAP_SHARED)
+		if err != nil {
+			c.setFail("bmgr", "the creator's file cannot be mapped: "+err.Error())
+			return "err"
+		}
+		defer syscall.Munmap(peerMem)
+	} else {
+		var st syscall.Stat_t
+		if err := syscall.Fstat(bm.memFd, &st); err != nil {
+			return "err"
+		}
+		objSize = st.Size
+	}
+	if int64(len(bm.mem)) != objSize {
+		c.setFail("creator-layout-exceeds-object", fmt.Sprintf("the creator laid out %d bytes, the shared object (what the peer maps) has %d bytes", len(bm.mem), objSize))
+	}
+	c.specCreate(bm, int(objSize))
+	var bm2 *bufferManager
+	if f[1] == "file" {
+		bm2, err = mappingBufferManager(path, peerMem, 0)
+	} else {
+		fd2, derr := syscall.Dup(bm.memFd)
+		if derr != nil {
+			return "err"
+		}
+		bm2, err = getGlobalBufferManagerWithMemFd(path+"_peer", fd2, 0, false, nil)
+		if err == nil {
+			defer addGlobalBufferManagerRefCount(path+"_peer", -1)
+		} else {
+			syscall.Close(fd2)
+		}
+	}
+	if err != nil {
+		c.setFail("map-disagrees", "the creator succeeded but a peer cannot map the same shared object: "+err.Error())
+		return "peer-err"
+	}
+	a, b := c03ShowLists(bm), c03ShowLists(bm2)
+	if a != b {
+		c.setFail("map-disagrees", fmt.Sprintf("creator sees %s, peer sees %s", a, b))
+	}
+	for li := range bm.lists {
+		if li >= len(bm2.lists) {
+			break
+		}
+		l1, l2 := bm.lists[li], bm2.lists[li]
+		if len(l1.bufferRegion) > bufferHeaderSize && len(l2.bufferRegion) == len(l1.bufferRegion) && int64(l1.bufferRegionOffsetInShm)+int64(len(l1.bufferRegion)) <= objSize {
+			last := len(l1.bufferRegion) - 1
+			l1.bufferRegion[last] = byte(0xB0 + li)
+			if l2.bufferRegion[last] != byte(0xB0+li) {
+				c.setFail("map-disagrees", "byte written through the creator's slot not seen through the peer's")
+			}
+		}
+	}
+	return "ok lists=" + a
+}
+
 func c03Exec(ops []string) vResult {
 	c := &c03Run{tags: map[string]bool{}}
+	if len(ops) > 0 && strings.HasPrefix(ops[0], "bmgr ") {
+		var out []string
+		for _, op := range ops {
+			f := vFields(op)
+			if len(f) >= 4 && f[0] == "bmgr" && (f[1] == "file" || f[1] == "memfd") {
+				out = append(out, c.bmgr(f))
+			} else {
+				out = append(out, "bad-op")
+			}
+		}
+		var tags []string
+		for t := range c.tags {
+			tags = append(tags, t)
+		}
+		return vResult{out: out, specFail: c.fail, key: c.key, tags: tags, noModel: true}
+	}
 	var out []string
 	memLen := 0
 	for _, op := range ops {
